@@ -54,6 +54,9 @@ isal_self_tests(void)
 
         ret |= _sha_self_tests();
 
+        /* Publish exactly 0 (pass) or 1 (fail): the SHA tests report failure as -1 */
+        ret = (ret != 0);
+
         asm_set_self_tests_status(ret);
 
         if (ret == 0)
